@@ -21,4 +21,11 @@ def generate():
     for name, text in gen_consts.generate().items():
         changed = write_if_changed(os.path.join(COQ, "Generated", name), text)
         info["files"][name] = {"bytes": len(text), "rewritten": changed}
+    import gen_regexes
+    files, rinfo, pats = gen_regexes.generate()
+    for name, text in files.items():
+        changed = write_if_changed(os.path.join(COQ, "Generated", name), text)
+        info["files"][name] = {"bytes": len(text), "rewritten": changed}
+    info["regexes"] = len(rinfo)
+    info["hand_modelled"] = [k for k, v in rinfo.items() if v.get("status") == "hand-modelled"]
     return info
